@@ -118,6 +118,11 @@ mod utils;
 mod value;
 
 fn raw_to_parse_error(map: &CodeMap, err: Error, unicode: bool) -> Box<Error> {
+    // I/O and UTF-8 errors (e.g. from an imported file) carry no span to resolve
+    if !err.is_raw() {
+        return Box::new(err);
+    }
+
     let (message, span) = err.raw();
     Box::new(Error::from_loc(message, map.look_up_span(span), unicode))
 }
